@@ -440,8 +440,8 @@ def obligations(ctx):
     # ---- CHUNKS-INV: offsets are non-decreasing and <= buffer.len() ---------------------------------------------------------
     ctx.rule("CHUNKS-INV", "encoder::Chunks: offsets only grows by push(buffer.len()), buffer only grows, both are cleared together; "
                            "Chunks::iter walks offsets in order starting from 0 — so buffer[start..end] is in range", floor=5)
-    ALLOWED = {"offsets": [r"^std::vec::Vec::<T, A>::push$", r"^std::vec::Vec::<T, A>::clear$"],
-               "buffer": [r"Extend<&'a T>>::extend$|as std::iter::Extend<.*>>::extend$", r"(as std::io::Write>|impl std::io::Write for std::vec::Vec<u8, A>>)::write(_all)?$", r"^std::vec::Vec::<T, A>::clear$"]}
+    ALLOWED = {"offsets": [r"^std::vec::Vec::<T, A>::push$", r"^std::vec::Vec::<T, A>::clear$", r"^std::vec::Vec::<T, A>::(reserve|reserve_exact|try_reserve|shrink_to_fit)$"],
+               "buffer": [r"Extend<&'a T>>::extend$|as std::iter::Extend<.*>>::extend$", r"^std::vec::Vec::<T, A>::(extend_from_slice|push|reserve|reserve_exact|try_reserve|shrink_to_fit)$", r"(as std::io::Write>|impl std::io::Write for std::vec::Vec<u8, A>>)::write(_all)?$", r"^std::vec::Vec::<T, A>::clear$"]}
     ok_inv = True
     n_mut = 0
     clears = {}
